@@ -7,6 +7,7 @@ import VC2.Model.FixedDictDriver
 import VC2.Model.StreamDriver
 import VC2.Model.FileFormatDriver
 import VC2.Model.CodecCsvDriver
+import VC2.Model.AutofillDriver
 open VC2 VC2.Gen
 
 def parseInts (ws : List String) : Option (List Int) :=
@@ -37,6 +38,7 @@ def step (line : String) : String :=
   | "vd" :: rest => VC2.Model.Stream.handleVd rest
   | "cf" :: rest => VC2.Model.CodecCsv.handleCf rest
   | "ci" :: rest => VC2.Model.CodecCsv.handleCi rest
+  | "af" :: rest => VC2.Model.Autofill.handleAf rest
   | "ff" :: rest => VC2.Model.FileFormat.handleFf rest
   | "vs" :: rest => VC2.Model.Constraint.handleVs rest
   | "ct" :: rest => VC2.Model.Constraint.handleCt rest
